@@ -29,6 +29,8 @@ import SpecKitV.Drv.ExtNoiseGens
 import SpecKitV.Drv.ExtFftNoise
 import SpecKitV.Drv.ExtLpsdCore
 import SpecKitV.Drv.ExtResultQueries
+import SpecKitV.Drv.ExtSchedGlue
+import SpecKitV.Drv.ExtConfigGlue
 
 namespace Drv
 
@@ -454,7 +456,7 @@ def dispatch : M String := do
   | "genutil" => opGenUtil
   | "ping" => pure "pong"
   | _ =>
-    match (ExtNumpyKernels.dispatch op <|> ExtRms.dispatch op <|> ExtTimeShift.dispatch op <|> ExtMiso.dispatch op <|> ExtNoiseGens.dispatch op <|> ExtFftNoise.dispatch op <|> ExtLpsdCore.dispatch op <|> ExtResultQueries.dispatch op) with
+    match (ExtNumpyKernels.dispatch op <|> ExtRms.dispatch op <|> ExtTimeShift.dispatch op <|> ExtMiso.dispatch op <|> ExtNoiseGens.dispatch op <|> ExtFftNoise.dispatch op <|> ExtLpsdCore.dispatch op <|> ExtResultQueries.dispatch op <|> ExtSchedGlue.dispatch op <|> ExtConfigGlue.dispatch op) with
     | some h => h
     | none => throw s!"op:{op}"
 
